@@ -17,7 +17,7 @@ prop(
     "C11",
     level="proof",
     design_ref="DESIGN.md section 3, C11",
-    groups=[(["./plugin/input/http"], r"^\(\*Plugin\)\.(processChunk|processBulk)$")],
+    groups=[(["./plugin/input/http"], r"^\(\*Plugin\)\.(processChunk|processBulk|newReadBuff|newEventBuffs)$")],
     claim=(
         "For every request body, every chunking of it into reads (io.Reader.Read may return any n) and every buffer state, "
         "each call of the pipeline's In() made by processBulk/processChunk receives exactly the next newline-separated line of the body "
@@ -58,5 +58,50 @@ prop(
         "lib contracts for bytes.IndexByte/IndexAny/LastIndex/TrimSuffix/Trim/Equal, bytes.Reader.Reset/ReadByte, fmt.Errorf/errors.New (non-nil)",
         "CSV buffers from sync.Pool are owned by the call (treated as fresh)",
         "map contents are not modelled (map updates/lookups in extractCustomFields and parseStructuredData are abstracted; they cannot panic on non-nil maps)",
+    ],
+)
+
+prop(
+    "C20",
+    level="proof",
+    design_ref="DESIGN.md section 3, C20",
+    groups=[(["./pipeline"], r"^\(\*Pipeline\)\.(checkInputBytes|In)$"), (["./pipeline/antispam"], r"^\(\*Antispammer\)\.(IsSpam|Maintenance)$")],
+    claim=(
+        "Sequential admission control, for all records and settings: checkInputBytes has an exact postcondition (refuses iff empty, lone newline, or oversize with cutting disabled; within the limit the record is returned unchanged; "
+        "a cut record is its first max_event_size bytes plus its newline, written inside the caller's record - frame checked); Pipeline.In returns 0 only on one of the listed reasons "
+        "(size/empty, undecodable, already committed, antispam, PassEvent) and consults the antispam only for complete records with threshold >= 0; IsSpam never drops when disabled or when a legacy exception matches, "
+        "matches every exception against the event bytes or the source name as configured (oracle on Match), and increments a source's counter at most once per call; "
+        "Maintenance maps each counter x to min(max(x-T,0),U*T) for the source's own stored threshold T."
+    ),
+    undecided=[
+        "unsynchronised load/swap/inc on one source's counter under concurrent readers (schedules)",
+        "the multi-round statements (ban only after >= threshold arrivals since the last round; unban within U+1 rounds) follow from the per-call and per-round contracts by an induction stated in DESIGN.md, not machine-checked",
+        "the configured cut-off mark field is added through insane-json (third-party): not under contract",
+    ],
+    assumptions=[
+        "p.settings.MaxEventSize >= 0 and a valid decoder type (requires on checkInputBytes / In: configuration validity)",
+        "go.uber.org/atomic Int32/Int64 methods behave as their sequential contracts over field v",
+        "calls into insane-json, metrics, the event pool and the streamer are abstracted (all heaps havocked) except where a callee clause names them",
+    ],
+)
+
+prop(
+    "C10",
+    level="proof",
+    design_ref="DESIGN.md section 3, C10",
+    groups=[(["./plugin/input/kafka"], r"^(assembleSourceID|disassembleSourceID|assembleOffset|disassembleOffset|\(\*Plugin\)\.Commit|\(\*pconsumer\)\.consume)$")],
+    claim=(
+        "Packing clauses of C10, for all topic indices / offsets below 2^47 and partitions / leader epochs 0..65535: the four packing functions are verified with exact 64-bit bit-vector semantics "
+        "(source id = index*2^16+partition, offset = recordOffset*2^16+epoch, both decode back exactly); consume hands every record to In with exactly that id/offset and the record's own value; "
+        "Commit marks offset+1 with the record's epoch for exactly the decoded topic index and partition, with the topic index in range. So the marked offset is one past a consumed record of the record's own topic/partition/epoch."
+    ),
+    undecided=[
+        "'never passes a record of that partition that has been neither acknowledged nor dropped': records of one partition are spread over all processors (UseSpread) and franz-go keeps the highest marked offset; whether a later record finishes first is a schedule, not a contract - NOT decided (and by reading it does not hold)",
+        "Start's idByTopic map (topic -> index) is a string-keyed Go map: map contents are not modelled, so 'Topics[idByTopic[t]] == t' is assumed (requires ti < len(Topics) in Commit)",
+        "leader epoch -1 (unknown) is outside the quantifier",
+    ],
+    assumptions=[
+        "kgo.Client.MarkCommitOffsets is abstracted; the map literal passed to it is checked through an assertion on the decoded index/partition/offset/epoch just before the call",
+        "select/channel receive in consume is abstracted (any case, any fetch)",
     ],
 )
